@@ -46,7 +46,7 @@ import json
 import os
 import re
 
-from rsparse import Source, ParseError, find_loops, mask, line_of
+from rsparse import Source, ParseError, find_loops, mask, line_of, match_close, split_top_level
 
 VERIF = os.path.dirname(os.path.dirname(os.path.abspath(__file__)))
 
@@ -322,8 +322,6 @@ class Gen:
         except ParseError as e:
             raise Undecided(str(e))
         key = (container + "::" if container else "") + name
-        ctr = self.contracts.get(key)
-        self.used_contracts.add(key)
         sig = s.text[f["start"]:f["body_open"]]
         body = s.text[f["body_open"]:f["end"]]
         sig_line = f["line"]
@@ -331,6 +329,54 @@ class Gen:
         if f["attrs"]:
             self.dropped.append(dict(file=s.path, item=key, dropped="attributes " + " ".join(f["attrs"])))
         rl = (rules if rules is not None else self.unit.get("rules", []))
+        # closure lifting (rule R-lift): a closure handed to an index method becomes a method of its own -
+        # captured variables become parameters, the body is carried over verbatim (`return` / `?` inside the
+        # closure leave the closure, i.e. the lifted method), the call site names the lifted method
+        lifted = []
+        for lf in self.unit.get("lifts", {}).get(key, []):
+            mb = mask(body)
+            hits = list(re.finditer(lf["call"], mb))
+            if len(hits) != 1:
+                raise Undecided("%s: call to lift not found (or not unique): %s" % (key, lf["call"]))
+            op = hits[0].end() - 1
+            cl = match_close(mb, op)
+            at, am = body[op + 1:cl], mb[op + 1:cl]
+            d_, ci = 0, -1
+            for i_, ch_ in enumerate(am):
+                if ch_ in "([{":
+                    d_ += 1
+                elif ch_ in ")]}":
+                    d_ -= 1
+                elif ch_ == "|" and d_ == 0:
+                    ci = i_
+                    break
+            from vxrules import _closure_parts
+            parts = _closure_parts(at[ci:]) if ci >= 0 else None
+            args = [at[:ci].rstrip().rstrip(",")]
+            if not parts or not parts[1].lstrip().startswith("{"):
+                raise Undecided("%s: the last argument of the lifted call is not a block closure" % key)
+            pat = [x.strip() for x in parts[0].split(",")]
+            if pat != lf["params"]:
+                raise Undecided("%s: lifted closure takes |%s|, the unit expects |%s|" % (key, parts[0], ", ".join(lf["params"])))
+            cb_off = op + 1 + body[op + 1:cl].index(parts[1])
+            lifted.append((lf, parts[1], line_of(s.text, f["body_open"] + cb_off)))
+            self.fidelity.append(dict(rule="R-lift", file=s.path, line=body_line + body.count("\n", 0, hits[0].start()), item=key,
+                                      before=re.sub(r"\s+", " ", body[hits[0].start():op + 1 + len(args[0]) + 1]) + " |%s| { ... })" % parts[0],
+                                      after=lf["replace"] + "  +  " + lf["sig"],
+                                      trusted="closure conversion: the closure body becomes the body of a method whose parameters are the closure's parameters and its captured variables; the index method is an opaque shim that may run it"))
+            body = body[:hits[0].start()] + lf["replace"] + body[cl + 1:]
+        self._emit_fn_text(key, sig, body, sig_line, body_line, s.path, indent, rl)
+        for lf, cbody, cline in lifted:
+            lkey = (container + "::" if container else "") + lf["name"]
+            self._emit_fn_text(lkey, indent + lf["sig"] + "\n" + indent, cbody, cline, cline, s.path, indent, rl)
+
+    def _emit_fn_text(self, key, sig, body, sig_line, body_line, path, indent, rl):
+        class _S:
+            pass
+        s = _S()
+        s.path = path
+        ctr = self.contracts.get(key)
+        self.used_contracts.add(key)
         sig = self.apply_rules(sig, ["vis"] + [r for r in rl if r.startswith("sig_")], s.path, sig_line, key)
         body = self.apply_rules(body, [r for r in rl if not r.startswith("sig_")], s.path, body_line, key)
         # constructs the rewrite table must have consumed: if one survives (the statement was edited out of
